@@ -600,6 +600,71 @@ func c01(r *Run) {
 			r.absentf(" C01: WriteBuffer links nothing behind the write cursor")
 		}
 	}
+	// ... and the receiver's write cursor ends on the donor's write cursor: everything the donor had reserved (also behind its
+	// flush cursor) stays in front of the receiver's write cursor, where the next Flush commits it
+	{
+		wb := bufMethod(w, "WriteBuffer")
+		rootOf := func(v ssa.Value) ssa.Value {
+			for v != nil {
+				if fa, isFA := v.(*ssa.FieldAddr); isFA {
+					v = fa.X
+					continue
+				}
+				if u, isU := v.(*ssa.UnOp); isU && u.Op == token.MUL {
+					v = u.X
+					continue
+				}
+				break
+			}
+			return v
+		}
+		n := 0
+		forEachIns(wb, func(i ssa.Instruction) {
+			st, ok := i.(*ssa.Store)
+			if !ok || !isStoreToField(i, "UnsafeLinkBuffer", "write") || len(wb.Params) < 2 {
+				return
+			}
+			_, _, base, _ := fieldOf(st.Addr)
+			if rootOf(base) != wb.Params[0] {
+				return // the donor's own cursor (closing the donor)
+			}
+			n++
+			src, fromWrite := loadOfField(st.Val, "UnsafeLinkBuffer", "write")
+			okv := fromWrite && rootOf(src) == wb.Params[1]
+			r.ob("C01.R6:append-adopts-the-donors-write-cursor:"+siteKey(w, i), "after Append the receiver's write cursor is the donor's write cursor (not its flush cursor): the donor's reserved-but-unflushed nodes stay in the flush..write range, so the receiver's Flush commits what MallocLen counts", wb, i, okv, "b.write = buf.write", true)
+		})
+		if n == 0 {
+			r.absentf(" C01: WriteBuffer does not move the receiver's write cursor")
+		}
+	}
+	// ... and it does not publish the donor's bytes past the receiver's own pending bytes: "readable only once flushed, in the
+	// order written" - WriteBuffer adding the donor's readable length while the receiver still has reserved, unflushed bytes in
+	// front of the donor's nodes makes the younger bytes readable first (F33, open)
+	{
+		wb := bufMethod(w, "WriteBuffer")
+		recal := bufMethod(w, "recalLen")
+		nothingPending := cmpAtom(func(v ssa.Value) bool {
+			if _, ok := loadOfField(v, "UnsafeLinkBuffer", "mallocSize"); ok {
+				return true
+			}
+			c, ok := v.(*ssa.Call)
+			return ok && c.Call.StaticCallee() != nil && c.Call.StaticCallee().Name() == "MallocLen" && len(wb.Params) > 0 && len(c.Call.Args) > 0 && c.Call.Args[0] == ssa.Value(wb.Params[0])
+		}, isConstEq(0), eqRel)
+		sites := findIns(wb, func(i ssa.Instruction) bool { return isCall(i, recal) })
+		for _, site := range sites {
+			base := &Search{Fn: wb}
+			wit := guardWitness(wb, site, nothingPending, base)
+			r.Visited += base.Visited
+			r.obW("C01.R6:append-publishes-behind-pending", "Append makes the donor's bytes readable at once only when the receiver has nothing pending (mallocSize == 0); otherwise they become readable with the Flush that also publishes the older pending bytes in front of them", wb, site, wit, "guarded by mallocSize == 0")
+		}
+		if len(sites) == 0 {
+			r.ob("C01.R6:append-publishes-behind-pending", "Append publishes nothing itself (the donor's bytes become readable with the receiver's Flush)", wb, nil, true, "no recalLen in WriteBuffer", false)
+		}
+	}
+	if r.keep == nil {
+		// the bytes Peek hands out are the bytes of the node it marks (C02.R1): marked elsewhere, a copying read recycles them
+		r.borrow([]string{"C02.R1:marked-node-is-handed-out"}, "C02.R1", "C01.R7", func() { c02(r) })
+	}
 	// ---- R8 pending bytes are counted in mallocSize ------------------------------------------------------
 	{
 		nodeMalloc := w.MustFn("(*linkBufferNode).Malloc")
